@@ -50,6 +50,10 @@ def cmp_siginfo(si, r, cert=False):
         na = None if vp is None else bl(vp.not_after)
         if (nb, na) != (r['not_before'], r['not_after']):
             d.append('validity')
+        ad = getattr(si, 'additional_description', None)
+        got_ad = None if ad is None else [(bl(x.description_key), bl(x.description_value)) for x in (ad.description_entry or [])]
+        if got_ad != r.get('add_desc'):
+            d.append('additional_description')
     return d
 
 
@@ -385,6 +389,18 @@ def corpus(ctx, rng):
             out.append(('cert', bytes(self_sign(kn, info['pub'], signer)[1])))
         else:
             out.append(('cert', bytes(derive_cert(kn, 'iss', info['pub'], signer, datetime.datetime(2020, 2, 29, 23, 59, 59), 86400 * 400)[1])))
+    # certificates that also carry an AdditionalDescription after the ValidityPeriod (what other tools issue)
+    for dec, wire in [x for x in out if x[0] == 'cert'][:ctx.n(4, 64)]:
+        b0, vs0, ve0 = rc.outer(wire, 6)
+        parts = []
+        for (t, ts, cvs, cve) in rc.children(b0, vs0, ve0):
+            if t == 0x16:
+                ents = b''.join(rc.enc_tlv(0x0200, rc.enc_tlv(0x0201, k_) + rc.enc_tlv(0x0202, v_)) for k_, v_ in ((b'owner', b'alice'), (b'', b''), (b'note', gen.rand_bytes(rng, 3)))[:rng.randint(1, 3)])
+                parts.append(rc.enc_tlv(0x16, b0[cvs:cve] + rc.enc_tlv(0x0102, ents)))
+            else:
+                parts.append(b0[ts:cve])
+        out.append(('cert', rc.enc_tlv(6, b''.join(parts))))
+        ctx.event('certificate-with-additional-description')
     for _ in range(ctx.n(8, 320)):
         out.append(('name', rc.enc_name(gen.name(rng, 0, 8))))
     return out
@@ -472,6 +488,7 @@ def run(ctx):
             b0, vs0, ve0 = rc.outer(wire, TL_DECODERS[dec][1])
             judge_copy(ctx, dec, b0[vs0:ve0], 'valid')
     ctx.need_event('step-monitored')
+    ctx.need_event('certificate-with-additional-description')
     ctx.need_event('copy-monitored')
     for dec in decs:
         ctx.need_event(f'{dec}:acc/acc')
